@@ -9,3 +9,58 @@ pub open spec fn sorted_entry_text(vals: Seq<RelV>, text: Seq<char>) -> bool {
     exists|p: Seq<int>| #![auto] is_perm(p, vals.len() as int) && vals_sorted(perm_vals(vals, p))
         && text == join_seqs(vals_texts(perm_vals(vals, p)), seq![' ', '|', ' '])
 }
+// ---- C13, field level ------------------------------------------------------------------------------------------------------------
+pub uninterp spec fn ents(r: Relations) -> Seq<Entry>;
+pub open spec fn ents_vals(es: Seq<Entry>) -> Seq<Seq<RelV>> { es.map_values(|e: Entry| accs(rels(e))) }
+pub open spec fn entry_text(w: Seq<RelV>) -> Seq<char> { join_seqs(vals_texts(w), seq![' ', '|', ' ']) }
+/// w is v rearranged into sorted order
+pub open spec fn entry_norm(v: Seq<RelV>, w: Seq<RelV>) -> bool {
+    exists|q: Seq<int>| #![auto] is_perm(q, v.len() as int) && w == perm_vals(v, q) && vals_sorted(w)
+}
+/// the sorted rearrangement an Entry::wrap_and_sort result shows (a choice among ties)
+pub open spec fn norm_of(v: Seq<RelV>, text: Seq<char>) -> Seq<RelV> {
+    perm_vals(v, choose|p: Seq<int>| #![auto] is_perm(p, v.len() as int) && vals_sorted(perm_vals(v, p)) && text == join_seqs(vals_texts(perm_vals(v, p)), seq![' ', '|', ' ']))
+}
+pub proof fn lemma_norm_of(v: Seq<RelV>, text: Seq<char>)
+    requires sorted_entry_text(v, text)
+    ensures entry_norm(v, norm_of(v, text)), text == entry_text(norm_of(v, text))
+{
+    let p = choose|p: Seq<int>| #![auto] is_perm(p, v.len() as int) && vals_sorted(perm_vals(v, p)) && text == join_seqs(vals_texts(perm_vals(v, p)), seq![' ', '|', ' ']);
+    assert(is_perm(p, v.len() as int) && norm_of(v, text) == perm_vals(v, p) && vals_sorted(perm_vals(v, p)));
+}
+pub open spec fn entries_sorted(ws: Seq<Seq<RelV>>) -> bool {
+    forall|i: int, j: int| 0 <= i < j < ws.len() ==> entry_order(#[trigger] ws[i], #[trigger] ws[j]) != core::cmp::Ordering::Greater
+}
+/// ws: the entries vs, each rearranged into sorted order, rearranged (by p) into sorted order
+pub open spec fn field_norm(vs: Seq<Seq<RelV>>, ws: Seq<Seq<RelV>>, p: Seq<int>) -> bool {
+    &&& is_perm(p, vs.len() as int)
+    &&& ws.len() == vs.len()
+    &&& forall|i: int| 0 <= i < ws.len() ==> entry_norm(vs[p[i]], #[trigger] ws[i])
+    &&& entries_sorted(ws)
+}
+/// the SUBSTVAR nodes among the children, in order
+pub open spec fn subst_nodes(ch: Seq<SyntaxNode>) -> Seq<SyntaxNode>
+    decreases ch.len()
+{
+    if ch.len() == 0 { Seq::empty() }
+    else if ch.last().kind_spec() == SyntaxKind::SUBSTVAR { subst_nodes(ch.drop_last()).push(ch.last()) }
+    else { subst_nodes(ch.drop_last()) }
+}
+pub open spec fn node_texts(ns: Seq<SyntaxNode>) -> Seq<Seq<char>> { ns.map_values(|n: SyntaxNode| n.text_spec()) }
+pub open spec fn entry_texts_of(ws: Seq<Seq<RelV>>) -> Seq<Seq<char>> { ws.map_values(|w: Seq<RelV>| entry_text(w)) }
+/// what Relations::wrap_and_sort returns: the normalised entries, then the substitution variables (rearranged), joined by ', '
+pub open spec fn sorted_field_text(vs: Seq<Seq<RelV>>, subs: Seq<SyntaxNode>, text: Seq<char>) -> bool {
+    exists|ws: Seq<Seq<RelV>>, p: Seq<int>, ss: Seq<SyntaxNode>, q: Seq<int>| #![auto]
+        field_norm(vs, ws, p) && permuted(subs, ss, q) && text == join_seqs(entry_texts_of(ws) + node_texts(ss), seq![',', ' '])
+}
+pub proof fn lemma_somes_subst(ch: Seq<SyntaxNode>, outs: Seq<Option<Substvar>>)
+    requires
+        outs.len() == ch.len(),
+        forall|i: int| 0 <= i < ch.len() ==> #[trigger] outs[i] == (if ch[i].kind_spec() == SyntaxKind::SUBSTVAR { Some(Substvar(ch[i])) } else { None::<Substvar> }),
+    ensures
+        somes(outs).len() == subst_nodes(ch).len(),
+        forall|i: int| 0 <= i < subst_nodes(ch).len() ==> (#[trigger] somes(outs)[i]).0 == subst_nodes(ch)[i],
+    decreases ch.len()
+{
+    if ch.len() > 0 { lemma_somes_subst(ch.drop_last(), outs.drop_last()); }
+}
